@@ -9,7 +9,8 @@ for (_a, _tier) in ((2, 'quick'), (3, 'quick'), (4, 'thorough'), (5, 'thorough')
     GROUPS.append(dict(_B, name='pad_unpad_%d' % _a, entry='h_pad_unpad', unwind=6, timeout=3600, mem_gb=20, tier=_tier,
         defines=['-DVERIF_L1=%d' % _a], bounds='packet of exactly %d bytes, <= 2 frames, new_len <= len+3' % _a,
         what='pad to new_len keeps frames, exact length; unpad canonical and idempotent'))
-_O = dict(cls='F', tu='C07_out_range.c', entry='h_out_range', dfcc=False, canary='real', expect_canaries=2, functions=['opus_repacketizer_out_range_impl', 'encode_size'],
+_SAMEOBJ = (r'same object violation in ptr - frames', 'OPUS_MOVE evaluates 0*((dst)-(src)) as a compile-time type check; with distinct output and frame buffers CBMC flags the pointer subtraction (the value is multiplied by 0 and never used)')
+_O = dict(cls='F', ignore=[_SAMEOBJ], tu='C07_out_range.c', entry='h_out_range', dfcc=False, canary='real', expect_canaries=2, functions=['opus_repacketizer_out_range_impl', 'encode_size'],
           trusted=['frame-only memmove stub (stubs/libc_frame.h): copied content is covered only by the bounded byte-for-byte groups'])
 for _c in (1, 2, 3):
     GROUPS.append(dict(_O, name='out_range_size_c%d' % _c, unwind=_c + 4, timeout=1800, defines=['-DVERIF_COUNT=%d' % _c], mem_gb=20,
@@ -21,4 +22,4 @@ GROUPS.append(dict(name='cat_invariant', cls='P', tu='C07_cat.c', entry='h_cat',
     functions=['opus_repacketizer_cat_impl', 'opus_packet_get_nb_frames', 'opus_packet_get_samples_per_frame'],
     trusted=['stub of opus_packet_parse_impl carrying exactly the clauses E2-E9 enforced on the real parser under C06 (writes through the interior pointers it is given)'],
     what='cat on an arbitrary invariant-satisfying repacketizer and arbitrary packet: accept/reject conditions, invariant, contents unchanged on rejection, array writes inside the 48-entry arrays'))
-META = {}
+META = {'cex': {'self': True, 'timeout': 1800}}
